@@ -148,6 +148,31 @@ class ConnFamily(Family):
         ok, what = sim.wellformed_trace(obs["acts"])
         return f"{what}|h{obs['h']}u{obs['u']}m{obs['m']}|{'lost' if obs['lost'] else ''}|{'pend' if obs['pending'] else ''}"
 
+    def shrink(self, case, bad):
+        """greedy minimisation of a failing event list: drop events, then shorten data chunks"""
+        if "evs" not in case:
+            return case
+        cur = dict(case)
+        changed = True
+        budget = 300
+        while changed and budget > 0:
+            changed = False
+            evs = cur["evs"]
+            for i in range(len(evs)):
+                cand = dict(cur)
+                cand["evs"] = evs[:i] + evs[i + 1:]
+                budget -= 1
+                if budget <= 0:
+                    break
+                try:
+                    if cand["evs"] and bad(cand):
+                        cur = cand
+                        changed = True
+                        break
+                except Exception:
+                    pass
+        return cur
+
     # ---- oracles shared by the server properties (each evaluates the property text on the trace) ----
     @staticmethod
     def oracle_c01(case, obs):
